@@ -1,13 +1,11 @@
-mod c08;
-mod c09;
-mod c10;
+mod c04;
+mod c19;
 
 fn main() {
     let args = vpc::Args::parse();
     match args.prop.as_str() {
-        "C08" => c08::run(&args),
-        "C09" => c09::run(&args),
-        "C10" => c10::run(&args),
+        "C04" => c04::run(&args),
+        "C19" => c19::run(&args),
         p => vpc::machinery_failure(&format!("property {p} is not served by this binary")),
     }
 }
